@@ -30,6 +30,9 @@ class Scenario:
     self.record_pyclass = {}   # RecordClass name -> the python class its records stand for (type(x) == Class)
     self.stored_attrs = {}     # (model name, attribute) -> value stored into an ignored attribute of a model object (thread.name)
     self.spawned = {}          # tid -> MThread model: programs of threads that the code under test creates and starts
+    self.class_attrs = {}      # (python class, attribute) -> model: class attributes that are shared state (a counter, a cell, a lock)
+    self.constructible = set() # python classes whose construction is translated (__init__ with a fresh composite object as self)
+    self.constructed = {}      # python class -> the composite objects made on the translated paths, in translation order
     self.notes = []
 
   def add(self, model):
